@@ -1,5 +1,5 @@
 """C15 - atomic sets partition the features into always-co-selected groups."""
-from vf import build, semantics
+from vf import build, semantics, strategies as S
 from vf.oracle import Raised, lib
 from vf.props import _bool
 from vf.runner import Sub
@@ -11,12 +11,45 @@ ASSUMPTIONS = ["co-selection is decided over all configurations from vf/semantic
 
 
 def check(case):
+    return _bool.run_with_edits(case, check_fm, "C15")
+
+
+def check_large(case):
+    """Models beyond brute force: partition, mandatory children with their parents, and 'same set => always co-selected'
+    decided by the exact classes of a constraint-free tree (_bool.forced_links; cross-checked in check_fm)."""
     from flamapy.metamodels.fm_metamodel.operations import FMAtomicSets
     out = []
     fm = build.build(case)
     got = lib(lambda: FMAtomicSets().execute(fm).get_result())
     if isinstance(got, Raised):
         return [(f"C15.raised:{got.label}", got.text)]
+    sets = [[getattr(f, "name", repr(f)) for f in s] for s in got]
+    flat = [n for s in sets for n in s]
+    if any(len(s) == 0 for s in sets):
+        out.append(("C15.empty-set", ""))
+    if sorted(flat) != sorted(build.names(case)):
+        out.append(("C15.not-a-partition", f"{len(flat)} members for {len(build.names(case))} features"))
+    _, comp = _bool.forced_links(case)
+    where = {}
+    for i, s in enumerate(sets):
+        for n in s:
+            where.setdefault(n, i)
+        if len({comp.get(n) for n in s}) > 1:
+            out.append(("C15.not-co-selected", f"a set mixes features that are not always co-selected: {s[:6]}"))
+    for r, o in build.iter_rels(case["root"]):
+        if len(r["children"]) == 1 and (r["min"], r["max"]) == (1, 1):
+            c = r["children"][0]["name"]
+            if where.get(c) != where.get(o["name"]):
+                out.append(("C15.mandatory-child-split-from-parent", f"{c!r} / {o['name']!r}"))
+    return out
+
+
+def check_fm(fm, case, out):
+    from flamapy.metamodels.fm_metamodel.operations import FMAtomicSets
+    got = lib(lambda: FMAtomicSets().execute(fm).get_result())
+    if isinstance(got, Raised):
+        out.append((f"C15.raised:{got.label}", got.text))
+        return out
     again = lib(lambda: (_bool.long_lived(FMAtomicSets).execute(fm), _bool.long_lived(FMAtomicSets).execute(fm).get_result())[1])
     if isinstance(again, Raised) or sorted(sorted(f.name for f in s) for s in again) != sorted(sorted(f.name for f in s) for s in got):
         out.append(("C15.reused-object-differs", "a long-lived FMAtomicSets object returns something else than a fresh one"))
@@ -32,6 +65,14 @@ def check(case):
         for n in s:
             where.setdefault(n, i)
     cfgs = semantics.configs(case)
+    if not case["ctcs"] and all(r["max"] == -1 or r["max"] >= 1 for r, _ in build.iter_rels(case["root"])) \
+            and all(r["min"] <= len(r["children"]) for r, _ in build.iter_rels(case["root"])):
+        comp = _bool.forced_links(case)[1]
+        nm = build.names(case)
+        for a in nm:
+            for b in nm:
+                if (comp[a] == comp[b]) != all((a in c) == (b in c) for c in cfgs):
+                    raise AssertionError("harness: forced_links classes disagree with the brute-force enumerator")
     for s in sets:
         for a in s[1:]:
             if any((s[0] in c) != (a in c) for c in cfgs):
@@ -46,6 +87,7 @@ def check(case):
 
 
 def nontrivial(case):
+    case = case["model"] if "edits" in case else case
     chain = nonmand = False
     for r, o in build.iter_rels(case["root"]):
         mand = len(r["children"]) == 1 and (r["min"], r["max"]) == (1, 1)
@@ -56,7 +98,17 @@ def nontrivial(case):
     return chain and nonmand
 
 
+def classes(case):
+    return _bool.edit_classes(case) if "edits" in case else _bool.structure_classes(case)
+
+
 SUBS = [
+    Sub("large-models", check_large, gen=lambda tier: _bool.large_models(), nontrivial=lambda case: True,
+        classes=_bool.large_classes, n={"quick": 40, "thorough": 1000}, essential=["group>=257"]),
+    Sub("constraint-lists", check, gen=lambda tier: _bool.constraint_list_models(), nontrivial=nontrivial, classes=classes,
+        n={"quick": 300, "thorough": 3000}, essential=["with-ctcs"], min_nontrivial=0.0),
+    Sub("edit-histories", check, gen=lambda tier: _bool.edit_histories(S.BOOLEAN_ANY, 10, with_ctcs=True),
+        nontrivial=lambda case: True, classes=classes, n={"quick": 100, "thorough": 1500}, essential=["edit:move"]),
     Sub("shapes", check, enum=_bool.enum_shapes, nontrivial=nontrivial, classes=_bool.structure_classes,
         exhaustive=True, min_nontrivial=0.005),
     Sub("random-no-ctcs", check, gen=lambda tier: _bool.random_models(False), nontrivial=nontrivial,
